@@ -80,7 +80,14 @@ def rule_frame(c, prog):
             elif field == U.F_PROPS and cls == "element:values_mut" and f is not None and f.body is not None:
                 # values reached through values_mut are only ever assigned Variant::Ref(..)
                 asg = [x for x in core.walk_fn(f) if x.get("k") == "Assign"]
-                ok = bool(asg) and all(core.strip(x["r"]).get("k") == "Call" and core.strip(x["r"])["f"].get("def") == "rbx_types::variant::Variant::Ref" for x in asg)
+                # ... either the whole value (`*v = Variant::Ref(r)`) or just the payload through the `&mut Ref` the
+                # pattern `Variant::Ref(slot)` hands out (`*slot = r`)
+                def ref_only(x):
+                    r = core.strip(x["r"])
+                    if r.get("k") == "Call" and r["f"].get("def") == "rbx_types::variant::Variant::Ref":
+                        return True
+                    return (x["l"].get("ty") or "") == "rbx_types::referent::Ref"
+                ok = bool(asg) and all(ref_only(x) for x in asg)
             if ok:
                 seen.add((field, cls))
                 c.ok(R, inst)
@@ -98,6 +105,19 @@ def rule_frame(c, prog):
     def sink(name):
         def h(I, n, path, arg_nodes, env):
             args = [I.eval(a, env) for a in arg_nodes]
+            if name == "extend" and len(args) == 2 and isinstance(args[1], tuple) and args[1] and args[1][0] in ("stream", "vec"):
+                # `queue.extend(items.map(f))` is the loop `for x in items { queue.push_back(f(x)) }`
+                try:
+                    st = I.to_stream(args[1])
+                    I.loop_stack.append(st[1])
+                    try:
+                        el = I.stream_elem(st)
+                    finally:
+                        I.loop_stack.pop()
+                    I.emit(("rep", st[1], [("sink", "push_back", ("tup", (args[0], el)), core.loc(n))], core.loc(n)))
+                    return sym.UNIT
+                except sym.Unsupported:
+                    pass
             I.emit(("sink", name, ("tup", tuple(args)), core.loc(n)))
             return sym.UNIT
         return h
